@@ -88,14 +88,41 @@ func (replayReader) Read(p []byte) (int, error) {
 	if randCnt == faultAt {
 		return 0, errors.New("verifrt: injected random source failure")
 	}
+	if pos < len(vec.Draws) && vec.Draws[pos].Kind == "randint" {
+		// crypto/rand.Int: the value is delivered as big-endian octets of the requested width
+		e := next("randint")
+		h := e.Hex
+		if len(h)%2 == 1 {
+			h = "0" + h
+		}
+		b, _ := hex.DecodeString(h)
+		for i := range p {
+			p[i] = 0
+		}
+		if len(b) > len(p) {
+			b = b[len(b)-len(p):]
+		}
+		copy(p[len(p)-len(b):], b)
+		randLog = append(randLog, append([]byte{}, p...))
+		return len(p), nil
+	}
 	e := next("rand")
 	b, _ := hex.DecodeString(e.Hex)
 	if len(b) != len(p) {
 		panic(fmt.Sprintf("verifrt: rand read of %d octets, vector has %d", len(p), len(b)))
 	}
 	copy(p, b)
+	randLog = append(randLog, append([]byte{}, b...))
 	return len(p), nil
 }
+
+var randLog [][]byte
+
+// RandLog returns the octets delivered by every successful read of the random source so far.
+func RandLog() [][]byte { return randLog }
+
+// Native reports whether the harness runs natively (replay) rather than under the executor.
+func Native() bool { return true }
 
 // Param returns the i-th job parameter (concrete under the executor as well).
 func Param(i int) int {
@@ -309,6 +336,30 @@ func Reset() {
 	Hits = map[string]int{}
 	faultAt = -1
 	randCnt = 0
+	randLog = nil
 }
+
+// SpyHash wraps a keyed hash and records what is written to it and what it returns (native replay of
+// counterexamples that live in the model of an uninterpreted MAC).
+type SpyHash struct {
+	Inner   hash.Hash
+	Written []byte
+	Sums    [][]byte
+	Inputs  [][]byte
+}
+
+func (s *SpyHash) Write(p []byte) (int, error) {
+	s.Written = append(s.Written, p...)
+	return s.Inner.Write(p)
+}
+func (s *SpyHash) Sum(b []byte) []byte {
+	r := s.Inner.Sum(nil)
+	s.Sums = append(s.Sums, r)
+	s.Inputs = append(s.Inputs, append([]byte{}, s.Written...))
+	return append(b, r...)
+}
+func (s *SpyHash) Reset()         { s.Written = nil; s.Inner.Reset() }
+func (s *SpyHash) Size() int      { return s.Inner.Size() }
+func (s *SpyHash) BlockSize() int { return s.Inner.BlockSize() }
 
 var _ = io.EOF
